@@ -526,6 +526,10 @@ func (w *World) Exec(st *Step) (res StepResult) {
 		// the oracle that owns this step does the work (see snapshotMonitor)
 	case "admin":
 		return w.execAdmin(st)
+	case "spin":
+		// self-test of the driver's stall watchdog (generated only when VERIF_DEBUG_SPIN_AT is set)
+		for {
+		}
 	case "intrude":
 		return w.execIntrude(st)
 	case "rotate":
